@@ -386,6 +386,9 @@ def d_index(cx, bi, t):
             return None
         g1 = lf_add(s_, e_, -1)
         g2 = lf_add(e_, ln, -1)
+        is_str = bool(re.search(r"for (str|std::string::String)>::index", t.get("resolved_full", ""))) or rty.replace("&", "").replace("mut ", "").strip() in ("str", "std::string::String")
+        if is_str:
+            return None  # slicing a str also needs both ends on char boundaries: no generic guard shows that
         if entails(facts, g1) and entails(facts, g2):
             return ("dom-len", "range %s..%s within length %s on every path here" % (lf_str(s_), lf_str(e_), lf_str(ln)))
         if "field:self.len" in e_ and n is not None:
@@ -527,7 +530,22 @@ def d_unwrap(cx, bi, t):
                         fld = dict(zip(a_s["rv"]["fields"], a_s["rv"]["ops"]))
                         tsl = pb.slice_op(fld["timestamp_str"])
                         prods.append(tsl.has_call(r"canonical::latin1_to_string$") or tsl.has_call(r"canonical::unescape_uri_encoding$"))
-                vis = cx.ctx.facts.j["fns"]
+                # the two producers really are Latin-1 (byte -> char casts only; no UTF-8 decoding of the bytes)
+                for fn in ("canonical::latin1_to_string", "canonical::unescape_uri_encoding"):
+                    pb = cx.ctx.facts.body(fn)
+                    if pb.calls(r"from_utf8_lossy$|String::from_utf8$|from_utf8_unchecked$|char::from_u32$|decode_utf16|encoding::"):
+                        okd = False
+                    for pbi, pt in pb.calls(r"String::push$"):
+                        od2 = pb.origin_def(pt["args"][1])
+                        isc = od2 and od2[0] == "def" and od2[1]["kind"] == "assign" and od2[1]["stmt"]["rv"]["k"] == "cast" and "IntToInt" in od2[1]["stmt"]["rv"]["kind"]
+                        src_ty = None
+                        if isc:
+                            pl = op_place(od2[1]["stmt"]["rv"]["op"])
+                            src_ty = pb.local_ty(pl["local"]) if pl and not pl["proj"] else None
+                        if not isc or src_ty != "u8":
+                            okd = False
+                    if pb.calls(r"String::push_str$|String::from$|Extend::extend$|String::insert\w*$"):
+                        okd = False
                 if okd and prods and all(prods):
                     return ("regex-group+caller-domain", "`\\d{4}` is Unicode-aware, but every caller passes a Latin-1 string (latin1_to_string / unescape_uri_encoding), which contains no decimal digit other than 0-9; four ASCII digits fit %s" % ity)
         return None
@@ -574,12 +592,17 @@ def d_builder(cx, bi, d):
     # required fields: those whose build() body has an Err(UninitializedField) exit
     bb = cx.ctx.facts.body(t["resolved"])
     required = set()
-    for ebi, t2 in bb.calls(r"UninitializedFieldError::new$|From::from$|Into::into$"):
-        pass
-    for c in bb.slice([0]).consts:
-        v = const_value(c)
-        if isinstance(v, str) and v in [f["name"] for v_ in adt["variants"] for f in v_["fields"]]:
-            required.add(v)
+    fieldnames = [f["name"] for v_ in adt["variants"] for f in v_["fields"]]
+    # build() may fail only for an unset required field: every Err it can return is an UninitializedFieldError("field")
+    for ebi, i, es in result_aggs(bb, "Err"):
+        esl = bb.slice_op(es["rv"]["ops"][0])
+        src = esl.find_calls(r"convert::From::from$", r"derive_builder::UninitializedFieldError as std::convert::From<&'static str>")
+        names = [const_value(op_const(x[1]["args"][0]) or {}) for x in src]
+        if not src or any(n not in fieldnames for n in names) or [c for c in esl.callee_names() if not re.search(r"convert::(From::from|Into::into)$", c)]:
+            return None
+        required |= set(names)
+    if bb.calls(r"FromResidual::from_residual$|Try::branch$") or [c for c in bb.calls() if c[1].get("resolved_local") and not re.search(r"Clone::clone$|Default::default$", c[1]["callee"])]:
+        return None  # a validate()/custom step can fail too
     bl = root_local(b, t["args"][0])
     pts = b.pointees()
     setters = {}
